@@ -68,8 +68,8 @@ inline bool walk_mpis(const Oct &b, size_t &p, size_t end, int n, const std::str
 
 // Label the octets of a sequence of new-format, definite-length packets (what the
 // library emits).  aead_chunk: plaintext chunk size of tag-20 packets (for chunk/tag labels).
-inline Layout walk(const Oct &in) {
-	Layout L; size_t p = 0; L.total = in.size();
+inline Layout walk(const Oct &in, const std::vector<std::string> &names = std::vector<std::string>()) {
+	Layout L; size_t p = 0, pktno = 0; L.total = in.size();
 	while (p < in.size()) {
 		size_t start = p; unsigned char t = in[p++];
 		if ((t & 0xC0) != 0xC0) { L.ok = false; break; }
@@ -81,7 +81,8 @@ inline Layout walk(const Oct &in) {
 		else if (l0 == 255) { if (p + 5 > in.size()) { L.ok = false; break; } len = ((size_t)in[p + 1] << 24) | (in[p + 2] << 16) | (in[p + 3] << 8) | in[p + 4]; p += 5; }
 		else { L.ok = false; break; }
 		if (p + len > in.size()) { L.ok = false; break; }
-		std::string pre = tag == 2 ? "sig" : tag == 6 ? "key" : tag == 14 ? "sub" : tag == 13 ? "uid" : tag == 1 ? "pkesk" : tag == 3 ? "skesk" : tag == 18 ? "seipd" : tag == 20 ? "aead" : tag == 9 ? "sed" : tag == 11 ? "lit" : "pkt" + std::to_string(tag);
+		std::string pre = (pktno < names.size() && !names[pktno].empty()) ? names[pktno] : tag == 2 ? "sig" : tag == 6 ? "key" : tag == 14 ? "sub" : tag == 13 ? "uid" : tag == 1 ? "pkesk" : tag == 3 ? "skesk" : tag == 18 ? "seipd" : tag == 20 ? "aead" : tag == 9 ? "sed" : tag == 11 ? "lit" : "pkt" + std::to_string(tag);
+		pktno++;
 		L.add(start, p - start, pre + ".hdr");
 		Oct b(in.begin() + p, in.begin() + p + len); size_t q = 0, base = p; bool ok = true;
 		if (tag == 2) {
@@ -90,14 +91,14 @@ inline Layout walk(const Oct &in) {
 				size_t hl = (b[4] << 8) | b[5];
 				if (6 + hl + 2 > len) ok = false;
 				else {
-					L.add(base, 6 + hl, "sig.hashed");
+					L.add(base, 6 + hl, pre + ".hashed");
 					size_t ul = (b[6 + hl] << 8) | b[7 + hl];
 					if (8 + hl + ul + 2 > len) ok = false;
 					else {
-						L.add(base + 6 + hl, 2 + ul, "sig.unhashed");
-						L.add(base + 8 + hl + ul, 2, "sig.left16");
-						q = 10 + hl + ul; ok = walk_mpis(b, q, len, sig_mpis(b[2]), "sig", base, L);
-						if (ok && q < len) L.add(base + q, len - q, "sig.trailing");
+						L.add(base + 6 + hl, 2 + ul, pre + ".unhashed");
+						L.add(base + 8 + hl + ul, 2, pre + ".left16");
+						q = 10 + hl + ul; ok = walk_mpis(b, q, len, sig_mpis(b[2]), pre, base, L);
+						if (ok && q < len) L.add(base + q, len - q, pre + ".trailing");
 					}
 				}
 			}
@@ -120,7 +121,7 @@ inline Layout walk(const Oct &in) {
 				} else ok = false;
 				if (ok && q < len) L.add(base + q, len - q, pre + ".trailing");
 			}
-		} else if (tag == 13) L.add(base, len, "uid.body");
+		} else if (tag == 13) L.add(base, len, pre + ".body");
 		else if (tag == 1) {
 			if (len < 10) ok = false;
 			else {
